@@ -186,17 +186,32 @@ struct Layout {
     trailing_comment: bool,
     final_newline: bool,
     leading: bool,
+    /// lines end in CR LF
+    crlf: bool,
+    /// the whole program on ONE line (items separated by a blank), so every message cites line 1
+    oneline: bool,
+}
+
+/// two more layouts, used for the messages and the library-level check: CR LF line ends, and the whole
+/// program on one line without any newline
+fn extra_layouts() -> Vec<Layout> {
+    vec![
+        Layout { filler: Filler::None, trailing_comment: false, final_newline: true, leading: false, crlf: true, oneline: false },
+        Layout { filler: Filler::Blank, trailing_comment: false, final_newline: false, leading: true, crlf: true, oneline: false },
+        Layout { filler: Filler::None, trailing_comment: false, final_newline: false, leading: false, crlf: false, oneline: true },
+        Layout { filler: Filler::None, trailing_comment: false, final_newline: true, leading: false, crlf: false, oneline: true },
+    ]
 }
 
 fn layouts(with_comments: bool) -> Vec<Layout> {
     let mut v = Vec::new();
     for final_newline in [true, false] {
-        v.push(Layout { filler: Filler::None, trailing_comment: false, final_newline, leading: false });
-        v.push(Layout { filler: Filler::Blank, trailing_comment: false, final_newline, leading: true });
+        v.push(Layout { filler: Filler::None, trailing_comment: false, final_newline, leading: false, crlf: false, oneline: false });
+        v.push(Layout { filler: Filler::Blank, trailing_comment: false, final_newline, leading: true, crlf: false, oneline: false });
         if with_comments {
-            v.push(Layout { filler: Filler::Comment, trailing_comment: true, final_newline, leading: true });
-            v.push(Layout { filler: Filler::Both, trailing_comment: false, final_newline, leading: false });
-            v.push(Layout { filler: Filler::None, trailing_comment: true, final_newline, leading: false });
+            v.push(Layout { filler: Filler::Comment, trailing_comment: true, final_newline, leading: true, crlf: false, oneline: false });
+            v.push(Layout { filler: Filler::Both, trailing_comment: false, final_newline, leading: false, crlf: false, oneline: false });
+            v.push(Layout { filler: Filler::None, trailing_comment: true, final_newline, leading: false, crlf: false, oneline: false });
         }
     }
     v
@@ -232,9 +247,18 @@ fn lay_out(lines: &[String], l: &Layout) -> (String, Vec<usize>) {
         out.push(t);
         map[i + 1] = out.len();
     }
-    let mut text = out.join("\n");
+    if l.oneline {
+        // everything on line 1
+        let mut text = lines.join(" ");
+        if l.final_newline {
+            text.push('\n');
+        }
+        return (text, vec![1; lines.len() + 1]);
+    }
+    let nl = if l.crlf { "\r\n" } else { "\n" };
+    let mut text = out.join(nl);
     if l.final_newline {
-        text.push('\n');
+        text.push_str(nl);
     }
     (text, map)
 }
@@ -283,6 +307,11 @@ fn parse_diag(out: &str) -> Option<(usize, Option<usize>, String)> {
     let col = c.get(2).and_then(|m| m.as_str().parse().ok());
     Some((line, col, c.get(3).map(|m| m.as_str().to_string()).unwrap_or_default()))
 }
+
+/// which column base the diagnostics use: bit 0 = a 0-based column was seen, bit 1 = a 1-based one; either
+/// convention is admissible, but it must be the same everywhere
+static COL_BASE: AtomicU64 = AtomicU64::new(0);
+static COL_ONE_EXAMPLE: std::sync::Mutex<String> = std::sync::Mutex::new(String::new());
 
 struct Stats {
     lib_entries: AtomicU64,
@@ -641,6 +670,13 @@ fn check_diag(rep: &Reporter, c: &Counters, st: &Stats, d: &DiagCase) {
                     Some(cc) => {
                         if cc != wc && cc != wc + 1 {
                             viol("column", format!("column {} (0-based) or {} (1-based)", wc, wc + 1), format!("column {}: {:?}", cc, stdout));
+                        } else if cc == wc {
+                            COL_BASE.fetch_or(1, Ordering::Relaxed);
+                        } else {
+                            let first = COL_BASE.fetch_or(2, Ordering::Relaxed) & 2 == 0;
+                            if first {
+                                *COL_ONE_EXAMPLE.lock().unwrap() = format!("{} | {:?}", d.what, stdout);
+                            }
                         }
                     }
                 }
@@ -693,10 +729,10 @@ pub fn run(tier: &Tier) -> i32 {
         return 2;
     }
     // (a) library level: blank-line layouts (comment stripping is the driver's job)
-    let lib_work: Vec<(usize, Layout)> = (0..ts.len()).flat_map(|i| layouts(false).into_iter().map(move |l| (i, l))).collect();
+    let lib_work: Vec<(usize, Layout)> = (0..ts.len()).flat_map(|i| layouts(false).into_iter().chain(extra_layouts()).map(move |l| (i, l))).collect();
     lib_work.par_iter().for_each(|(i, l)| check_source_map(rep, c, &st, &ts[*i], l));
     // (b) messages through the binary, all layouts, plain and -i
-    let cli_work: Vec<(usize, Layout, bool)> = (0..ts.len()).flat_map(|i| layouts(true).into_iter().flat_map(move |l| [(i, l, false), (i, l, true)])).collect();
+    let cli_work: Vec<(usize, Layout, bool)> = (0..ts.len()).flat_map(|i| layouts(true).into_iter().chain(extra_layouts()).flat_map(move |l| [(i, l, false), (i, l, true)])).collect();
     cli_work.par_iter().for_each(|(i, l, interp)| check_messages(rep, c, &st, &ts[*i], l, *interp));
     // (c) diagnostics
     let mut diag: Vec<DiagCase> = Vec::new();
@@ -710,10 +746,19 @@ pub fn run(tier: &Tier) -> i32 {
             diag.extend(corruptions(t, l, every));
         }
     }
-    for l in lays.iter() {
+    for l in lays.iter().chain(extra_layouts().iter().filter(|l| l.crlf)) {
         diag.extend(semantic_cases(l));
     }
+    // token corruptions under CR LF line ends, for a third of the templates
+    for t in ts.iter().step_by(3) {
+        for l in extra_layouts().iter().filter(|l| l.crlf) {
+            diag.extend(corruptions(t, l, 2));
+        }
+    }
     diag.par_iter().for_each(|d| check_diag(rep, c, &st, d));
+    if COL_BASE.load(Ordering::Relaxed) == 3 {
+        rep.report(Viol { site: "column base".into(), field: "column".into(), vars: vec![], got_val: None, expected: "columns counted from the same base in every diagnostic".into(), got: format!("most diagnostics count from 0, but: {}", COL_ONE_EXAMPLE.lock().unwrap()), case: json!({}), weight: 0 });
+    }
     for d in diag.iter().step_by(diag.len() / 6 + 1) {
         c.sample(json!({"site": d.site, "what": d.what, "src": d.text}));
     }
@@ -729,7 +774,7 @@ pub fn run(tier: &Tier) -> i32 {
     }
     let mut cov = Coverage::default();
     cov.exhaustive = true;
-    cov.rule = format!("{} templates = 4 item kinds (print, INT 3, divide error, unsupported AH) x 9 placements (after uses of a macro with an empty body, first / middle / last line, inside a procedure defined before or after start, inside a macro body, inside nested macros, macro used inside a procedure) plus two multi-item programs with loops; layouts = {{no filler, blank lines, comment-only lines, mixed}} x {{trailing comments or not}} x {{final newline or not}} (10 layouts). (a) library level: for every emitted instruction the source-map offset must lie in the line of the instruction (macro output: outermost use line; implied ret: closing brace). (b) every template x every layout through the real binary, plain and with -i (every instruction is then preceded by a step message): line numbers and line texts of all messages are matched. (c) diagnostics: for {} token positions: '@' inserted before the token, the token replaced by ')', the file truncated after the token; plus 12 semantic errors at first / middle / last line and 3 data-side errors in all 10 layouts; the position the real Preprocessor reports is cross-checked against the generator-known token offset, and the binary's message must cite that line, column (0- or 1-based) and line text", ts.len(), "all");
+    cov.rule = format!("{} templates = 4 item kinds (print, INT 3, divide error, unsupported AH) x 9 placements (after uses of a macro with an empty body, first / middle / last line, inside a procedure defined before or after start, inside a macro body, inside nested macros, macro used inside a procedure) plus two multi-item programs with loops; layouts = {{no filler, blank lines, comment-only lines, mixed}} x {{trailing comments or not}} x {{final newline or not}} (10 layouts), plus CR LF line ends and the whole program on ONE line without a newline. (a) library level: for every emitted instruction the source-map offset must lie in the line of the instruction (macro output: outermost use line; implied ret: closing brace). (b) every template x every layout through the real binary, plain and with -i (every instruction is then preceded by a step message): line numbers and line texts of all messages are matched. (c) diagnostics: for {} token positions: '@' inserted before the token, the token replaced by ')', the file truncated after the token; plus 12 semantic errors at first / middle / last line and 3 data-side errors in all 10 layouts; the position the real Preprocessor reports is cross-checked against the generator-known token offset, and the binary's message must cite that line, column (0- or 1-based, but the same base everywhere) and line text", ts.len(), "all");
     cov.bounds = json!({"templates": ts.len(), "library_runs": lib_work.len(), "source_map_entries_checked": st.lib_entries.load(Ordering::Relaxed), "message_runs": cli_work.len(), "messages_checked": st.cli_msgs.load(Ordering::Relaxed), "diagnostic_runs": diag.len(), "syntax_diagnostics": total, "reported_exactly_at_corrupted_token": exact, "reported_later_than_corrupted_token": st.diag_later.load(Ordering::Relaxed), "corruptions_leaving_a_valid_program": st.still_valid.load(Ordering::Relaxed), "tier": tier.name()});
     cov.assumptions = common_assumptions();
     cov.assumptions.push("line text in messages is compared modulo the ';' comment and surrounding white space; line numbers exactly; columns 0- or 1-based".into());
